@@ -111,6 +111,91 @@ CHECKS = {
              "distinct = distinct (type, prefix) pairs",
         floors={"any": {"rejected": 100000}},
     ),
+    "C09": dict(
+        claim="Held on N observed executions: flat streams of deduplicated / plain string writes (all patterns up to length 4, 5 in the thorough tier, over a 7-string alphabet; random longer ones) are written by the library and compared byte for byte with a reference string table (first occurrence = plain string, repeat = zig-zag varint of minus its id, ids from 1 in first-occurrence order), read back, and probed with ids that were never introduced; plus every subject type containing deduplicated strings (tuples, sequences, v0 and evolved records with and without names in the header).",
+        note="Trusted: the reference string table (20 lines, harness/dv/src/streams.rs) and the reference encoder's stream-order numbering of header names. Cross-definition deduplication is outside the property (DESIGN 9-2).",
+        technique="byte-exact reference string table monitor over exhaustive short write patterns",
+        level="exploration",
+        quick=NATIVE, thorough=NATIVE,
+        rule="streams = sequences of (dedup|plain, string) writes; exhaustive over all sequences up to the stated length, random beyond; non-trivial = contains at least one repeat of a deduplicated string (a back-reference is written); distinct by write sequence / by (type, bytes) for record subjects",
+        floors={"any": {"back_references_checked": 10000, "no_repeat_streams_identical_to_plain": 1000, "unknown_ids_rejected": 10000, "records_with_names_in_header_ok": 500}},
+    ),
+    "C10": dict(
+        claim="Held on N observed executions: every rooted graph with at most 3 nodes (4 in the thorough tier) and out-degree at most 2, and random graphs up to 200 nodes, is encoded with a harness-owned codec that offers node addresses as identities through the public API; bytes must equal the graph model (new marker + body on first offer, 1-based first-encounter number afterwards, pre-order), the decoded graph must be isomorphic with identical sharing (pointer equality), and streams citing an object number never introduced must fail with InvalidRefId. The Miri lane runs the same on small graphs under an interpreter that makes vtable addresses non-unique.",
+        note="Trusted: the harness codec (graph.rs, safe Rust, public API only) and the DFS graph model. Native lanes cannot expose identity-by-fat-pointer; only the Miri lane can.",
+        technique="graph-model monitor (byte-exact + isomorphism + pointer equality) over exhaustive small graphs; Miri lane",
+        level="exploration",
+        quick=NATIVE + [("miri", 0.02, {"shards": 8, "max_nodes": 2})],
+        thorough=NATIVE + [("asan", 1.0), ("miri", 0.05, {"shards": 16, "max_nodes": 3})],
+        rule="graphs enumerated exhaustively up to the node bound (all ordered edge lists of length 0..2 per node, all nodes reachable), random beyond; non-trivial = some node is offered more than once (sharing, cycle or self-loop); distinct by adjacency structure",
+        floors={"any": {"graphs_rebuilt_isomorphic": 500, "unknown_object_numbers_rejected": 500}},
+    ),
+    "C11": dict(
+        claim="Thorough tier: exhaustive — all 2^32 bit patterns, each as u32 and as i32, are written to Vec<u8>, BytesMut and SizeCalculator, compared with the reference LEB128 / zig-zag formula, checked for minimal length and continuation bits, and read back through SliceInput, OwnedInput and DeserializationContext (release build, 16 shards). Quick tier: every value within 4096 of each width boundary plus a 2^20-point random sample, debug and release.",
+        note="Trusted: refmodel::enc::vu_bytes / zigzag (10 lines).",
+        technique="exhaustive enumeration of the 32-bit value space against a reference formula",
+        level="exploration",
+        quick=NATIVE,
+        thorough=[("dbg", 1.0), ("rel", 1.0, {"exhaustive": "1"})],
+        rule="every (kind, bit pattern) pair is one case covering bytes, length, continuation bits and the 3x3 sink/source matrix; all cases are non-trivial; distinct by (kind, value); the thorough tier enumerates the whole space (exhaustive: true)",
+        floors={"any": {"values_checked": 100000}},
+        coverage_extra={"exhaustive": lambda counters, tier: counters.get("exhaustive_bit_patterns", 0) == 2**32},
+    ),
+    "C12": dict(
+        claim="Held on N observed executions: for 24 element types and lengths 0..8, 16, 17, 32, 40, 63, 64, 127, 128 (8191/8192 thorough), element lists are written by every source container (Vec, slice, array, LinkedList, HashSet, BTreeSet, an iterator without exact size hint = real unknown-length writer, the reference unknown-length encoder) and read by every target container (Vec, array of matching length, LinkedList, HashSet, BTreeSet); pair lists against HashMap / BTreeMap; Vec<u8>, &[u8], [u8; N], Bytes among themselves. Ordered targets must reproduce the order written, sets the set of elements.",
+        note="Trusted: to_val of the containers; for hash containers the order written is taken from iterating the same instance.",
+        technique="full source x target container matrix executed on generated element lists",
+        level="exploration",
+        quick=NATIVE, thorough=NATIVE,
+        rule="a case = (element type, source container, target container, element list); non-trivial = source and target differ; distinct by (element type, source, target, bytes)",
+        floors={"any": {"cells_ok": 20000, "pair:reference_unknown_length->Vec": 100, "pair:unsized_iterator->array": 20, "pair:HashSet->Vec": 100, "pair:Vec->HashSet": 100, "pair:pair_list->HashMap": 100, "pair:[u8;N]->Bytes": 50}},
+    ),
+    "C13": dict(
+        claim="Held on N observed executions: for every generated enum the leading bytes are version 0 + the variant's position in index order (declaration order, or name order under sorted_constructors); indices the definition does not know give InvalidConstructorId, indices of transient constructors give DeserializingTransientConstructor with the right names; for every generated family (base enum + extensions whose new variants come after the old ones in index order, incl. sorted ones declared at random positions) old data keeps its meaning under the extension and new constructors are rejected by the old definition.",
+        note="Trusted: EnumSchema::wire_index (stable sort by name) and the family generator.",
+        technique="cross-definition differential execution over generated enum families + spliced constructor indices",
+        level="exploration",
+        quick=NATIVE, thorough=NATIVE + [("fresh", 1.0)],
+        rule="cases: (enum, value) leading-index checks, (base, extension, value) cross reads both ways, spliced indices {n, n+1, 127, 128, 2^14, u32::MAX} and transient indices; non-trivial = all; distinct by (reader type, bytes)",
+        floors={"any": {"old_data_keeps_its_meaning": 2000, "old_data_keeps_its_meaning_sorted": 300, "new_constructor_rejected_by_old_definition": 1000, "unknown_index_rejected": 1000, "transient_index_rejected": 30, "leading_index_checked_for_sorted_constructors": 500}},
+    ),
+    "C14": dict(
+        claim="Held on N observed executions: for every generated declaration with transient fields (first / middle / last position, in structs and both variant kinds) two values differing only in transient fields encode identically and decode to the declared default (defaults are drawn to differ from the values); every transient constructor refuses to encode with SerializingTransientConstructor naming type and constructor; every version of every generated history that follows a FieldMadeTransient step encodes successfully, including fields made optional or added earlier.",
+        note="Trusted: refmodel::scramble_transients; for types with hash containers byte equality is judged through the strict reference decoder (iteration order differs per instance).",
+        technique="metamorphic monitor: transient-only variation must not change the bytes",
+        level="exploration",
+        quick=NATIVE, thorough=NATIVE + [("fresh", 1.0)],
+        rule="non-trivial = the two values really differ (some transient field was changed); distinct by (type, bytes)",
+        floors={"any": {"transient_values_do_not_influence_bytes": 5000, "transient_fields_decoded_to_default": 5000, "transient_constructor_refused": 500, "made_transient_versions_encodable": 500, "made_transient_after_earlier_steps_encodable": 100}},
+    ),
+    "C15": dict(
+        claim="Held on N observed executions: every generated value of every subject type is written to Vec<u8>, BytesMut, serialize_to_bytes, serialize_to_byte_vec and a user-defined recording output — identical bytes — and SizeCalculator reports exactly their number; 80 000 (2 000 000 thorough) ordinary and hostile primitive read sequences run on SliceInput, OwnedInput and DeserializationContext must agree result by result (value, error class, panic) and report end of input at the same point.",
+        note="Trusted: the recording output (10 lines).",
+        technique="differential monitor across sinks and across input implementations",
+        level="exploration",
+        quick=NATIVE, thorough=NATIVE,
+        rule="cases: (type, value) across 5 sinks + size calculator; (buffer, read sequence) across 3 inputs; distinct by (type, bytes) / (buffer, ops)",
+        floors={"any": {"all_sinks_agree_and_size_exact": 10000, "input_sequences_agree": 10000}},
+    ),
+    "C16": dict(
+        claim="Fault enumeration on compressed frames: contents (zero, random, periodic, text, mixed) x sizes 0 .. 1 MiB (16 MiB thorough) x levels 0-9 x both sinks x all three sources with trailing data: frame == varint(len d) ++ varint(len z) ++ z with z inflating to d (checked with an independent inflate), following bytes intact; every truncation of frames <= 4 KiB is an error; every single-bit flip of small frames, random flips of large ones and header rewrites give Ok or Err, no panic, and no single allocation request above max(64 KiB, 2 x bytes actually produced) (allocation monitor).",
+        note="Trusted: flate2's DeflateDecoder as independent inflate (same crate the library uses, called directly); the counting allocator.",
+        technique="round-trip + framing monitor with allocation monitor over truncation / bit-flip / header-rewrite faults",
+        level="fault_enumeration",
+        quick=NATIVE, thorough=NATIVE + [("asan", 0.3)],
+        rule="faults: truncation at every offset, bit flip at every bit (small frames), header rewrites to {0, -1, +1, x2, 2^31, 2^32-1}; non-trivial = all; distinct by frame bytes",
+        floors={"any": {"frames_round_trip": 300, "truncations_rejected": 5000, "corrupted_ok:bitflip": 1000, "corrupted_err:bitflip": 1000}},
+    ),
+    "C17": dict(
+        claim="Held on N observed executions: all 1 112 064 Unicode scalar values are encoded (BMP: 2 bytes big-endian; others: UnsupportedCharacter with that character); zero-sized sequences, slices and exact-size iterators of length i32::MAX+1 .. usize::MAX give LengthTooLarge (4 GiB / 2 GiB byte and string buffers in the thorough tier); a declaration referencing an unknown field gives UnknownFieldReferenceInEvolutionStep through every sink; a declaration with the maximum of 255 metadata steps round-trips; value-domain extremes of the time and big-number types; and generated values of every subject type (astral characters allowed) give Ok or exactly the documented error predicted by the reference encoder. A panic or an undocumented variant is a violation.",
+        note="Trusted: the reference encoder's prediction of which documented error applies. Known finding D15 (DateTime<FixedOffset> beyond the date range) is reported.",
+        technique="panic monitor + error-variant oracle over exhaustive chars and boundary values",
+        level="exploration",
+        quick=NATIVE, thorough=NATIVE,
+        rule="chars: exhaustive (every scalar value is a distinct case); others: distinct by (type, value); non-trivial = all",
+        floors={"any": {"unicode_scalars_checked": 1112064, "documented_error:LengthTooLarge": 12, "documented_error:UnknownFieldReferenceInEvolutionStep": 5, "encoded": 20000}},
+        coverage_extra={"exhaustive_chars": True},
+    ),
 }
 
 NOT_APPLICABLE = {}
